@@ -31,4 +31,38 @@ def run (line : String) : String :=
         result model spec
   | _ => "bad-op"
 
+/-- op `core2 <hex1> <hex2> @@ <sexp1> @@ <sexp2>`: the REPL's second line — compiled at byte 0 in
+the carried state (constants appended to the pool, globals and bindings of line 1) -/
+def run2 (line : String) : String :=
+  match line.splitOn " @@ " with
+  | [_, sx1, sx2] =>
+    match readProgram sx1, readProgram sx2 (siteBase := 100000) with
+    | some p1, some p2 =>
+      match ofStmts 400 0 [] p1.stmts with
+      | none => result "MODEL-SKIP" "any"
+      | some (ss1, n1, vis1) =>
+        match ofStmts 400 n1 vis1 p2.stmts with
+        | none => result "MODEL-SKIP" "any"
+        | some (ss2, n2, _) =>
+          let k := (constsP ss1).length
+          let code2 := compileP 0 k ss2
+          let pool := constsP ss1 ++ constsP ss2
+          let g0 : List Val := List.replicate n2 .null
+          let gsS (g : List Val) : String := joinWith "," (g.map encVal)
+          match runMachine (compileP 0 0 ss1) pool 100000 ⟨0, [], g0⟩ with
+          | none => result "line1 rterr" "any"
+          | some st1 =>
+            let codeS := natList (encode code2)
+            let poolS := joinWith "|" (pool.map encVal)
+            let model := match runMachine code2 pool 100000 ⟨0, [], st1.g⟩ with
+              | some st => s!"code={codeS} consts=[{poolS}] ok g=[{gsS st.g}] last=* sp={st.stk.length}"
+              | none => s!"code={codeS} consts=[{poolS}] rterr"
+            -- specification: the one program line1 ++ line2
+            let spec := match evalP 20000 g0 (ss1 ++ ss2) with
+              | some g => s!"m code=* consts=* ok g=[{gsS g}] last=* sp=0"
+              | none => "any"
+            result model spec
+    | _, _ => result "MODEL-SKIP" "any"
+  | _ => "bad-op"
+
 end P2sh.Driver.CoreDrv
